@@ -453,6 +453,90 @@ func runC18(c *core.Ctx) error {
 		c.Count(caseID, true)
 		c.Dist("race")
 	}
+	// --- (viii) writers that OVERWRITE one key with different contents of different lengths (small, and several hundred
+	// KiB: beyond any size from which a reader might treat a block differently), with readers: a reader sees one of the
+	// committed contents, whole; afterwards the key holds one of them
+	for round := 0; round < c.Pick(4, 120); round++ {
+		d := newDir()
+		st, err := newFsStore(d)
+		if err != nil {
+			return err
+		}
+		r := c.Rand.Fork()
+		key := fmt.Sprintf("overwritten-%d", round)
+		sizes := [][]int{{700000, 300000}, {524288, 262144, 262145}, {90, 40, 300000}, {1 << 20, 1<<18 + 1}}[round%4]
+		var alts [][]byte
+		for i, n := range sizes {
+			alts = append(alts, bytes.Repeat([]byte{byte('a' + i)}, n))
+		}
+		isAlt := func(b []byte) bool {
+			for _, a := range alts {
+				if bytes.Equal(a, b) {
+					return true
+				}
+			}
+			return false
+		}
+		st.Put(ctx, key, alts[0])
+		var wg, rg sync.WaitGroup
+		stop := make(chan struct{})
+		var mu sync.Mutex
+		var bad string
+		for w := 0; w < 3; w++ {
+			wg.Add(1)
+			go func(w int) {
+				defer wg.Done()
+				for i := 0; i < 40; i++ {
+					st.Put(ctx, key, alts[(i+w)%len(alts)])
+				}
+			}(w)
+		}
+		for rdr := 0; rdr < 4; rdr++ {
+			rg.Add(1)
+			go func(rdr int) {
+				defer rg.Done()
+				for {
+					select {
+					case <-stop:
+						return
+					default:
+					}
+					var got []byte
+					var err error
+					if rdr%2 == 0 {
+						got, err = st.Get(ctx, key)
+					} else if rc, e := st.GetStream(ctx, key); e == nil {
+						got, err = io.ReadAll(rc)
+						rc.Close()
+					} else {
+						err = e
+					}
+					if err == nil && !isAlt(got) {
+						mu.Lock()
+						first := byte(0)
+						if len(got) > 0 {
+							first = got[0]
+						}
+						bad = fmt.Sprintf("reader saw %d bytes (first %q, mixed=%v) under the key; committed contents have %v bytes", len(got), first, bytes.Count(got, got[:min(1, len(got))]) != len(got), sizes)
+						mu.Unlock()
+					}
+				}
+			}(rdr)
+		}
+		wg.Wait()
+		close(stop)
+		rg.Wait()
+		_ = r
+		caseID := fmt.Sprintf("c18.overwrite round=%d sizes=%v", round, sizes)
+		if bad != "" {
+			c.Fail("C18/reader-saw-partial", core.Replay{Kind: "oracle", Case: caseID, Impl: bad, Expected: "one of the committed contents, whole"})
+		}
+		if got, err := st.Get(ctx, key); err != nil || !isAlt(got) {
+			c.Fail("C18/partial-or-mixed-block", core.Replay{Kind: "oracle", Case: caseID, Impl: fmt.Sprintf("after the writers finished the key reads %d bytes (err %v)", len(got), err), Expected: "one of the committed contents"})
+		}
+		c.Count(caseID, true)
+		c.Dist("race:overwrite")
+	}
 	// --- (v) interleaved streaming writers over several Store values on one directory --------------
 	for round := 0; round < c.Pick(40, 2000); round++ {
 		d := newDir()
